@@ -388,6 +388,21 @@ def step (w : World) (line : String) : World × List String :=
       let shown := shown.filter fun e => match e with | .push s _ => (AL.get? n.sessions s).isSome | _ => true
       (w, respStr r :: evLines shown ++ dumpNode n)
     | none => (w, ["E bad-op"])
+  | "TCPOPEN" =>
+    match Bytes.parseNat a1 with
+    | some sid => let n := w.node.setSession sid {}; ({ w with node := n }, s!"B {sid} {esc tcpGreeting}" :: dumpNode n)
+    | none => (w, ["E bad-op"])
+  | "TCP" | "WS" =>
+    -- one line over a tcp connection / one text message over a websocket: `B <sid> <bytes>` is what the connection's socket receives
+    match Bytes.parseNat a1 with
+    | some sid =>
+      let n0 := if (AL.get? w.node.sessions sid).isNone then w.node.setSession sid {} else w.node
+      let (n, bytes, evs) := if cmd = "TCP" then n0.tcpLine sid (unesc a2) else n0.wsMessage sid (unesc a2)
+      let w := recordNotices { w with node := n } evs
+      let (w, shown) := absorb w evs
+      let shown := shown.filter fun e => match e with | .push s _ => (AL.get? n.sessions s).isSome | _ => true
+      (w, s!"B {sid} {esc bytes}" :: evLines shown ++ dumpNode n)
+    | none => (w, ["E bad-op"])
   | "RESOLVE" =>
     -- RESOLVE <sid> <i> <value>: answer the i-th notice this session received
     match Bytes.parseNat a1 with
